@@ -1,3 +1,4 @@
+import Varint.Bridge.Group
 import Varint.Bridge.Delta
 import Varint.Bridge.RLE
 import Varint.Lemmas.Adaptive
@@ -153,5 +154,22 @@ theorem adaptive_extent_le_max (φ : Adaptive.FloatPreds) (xs : List Nat) (hne :
   Adaptive.adaptive_size_sel φ xs hne hx hn
 
 example : (RLE.encH [2 ^ 64 - 1]).length = 11 ∧ RLE.maxSize 1 = 19 := by decide
+
+
+/-- **the group size predictor on the translated C** (`varintGroupSize`, machine-translated with its nested width loop):
+    for 1..64 fields of 64-bit values it returns exactly the number of bytes of the encoding, which is at most
+    1 + 16 + 8·n; for 0 or more than 64 fields it returns 0. Every fuel ≥ n + 9. -/
+theorem c_group_size_exact (xs : List Nat) (hx : ∀ x ∈ xs, x < 2 ^ 64) (h256 : xs.length < 256) (fuel : Nat)
+    (hf : xs.length + 9 ≤ fuel) :
+    Varint.Gen.C.groupSize fuel (Varint.Bridge.Tagged.bufOf xs) xs.length = some (Group.size xs) ∧
+    (Group.Ok xs → Group.size xs = (Group.enc xs).length ∧ Group.size xs ≤ 1 + 16 + 8 * xs.length) ∧
+    ((xs.length = 0 ∨ xs.length > 64) → Group.size xs = 0) := by
+  refine ⟨Varint.Bridge.Group.groupSize_eq xs hx h256 fuel hf, ?_, ?_⟩
+  · intro h
+    obtain ⟨a, b⟩ := group_size_exact xs h
+    exact ⟨a.symm, b⟩
+  · intro h
+    unfold Group.size
+    rw [if_pos h]
 
 end Varint.Props.C03
